@@ -206,6 +206,24 @@ def rule_transparent_call(ctx):
             ctx.instance("transparent_call:positional-arm")
             if "self.args.len()==1" not in body:
                 ctx.report("transparent:positional-arity", ctx.where(f, arm["pat"]), "positional transparent call no longer requires exactly one argument (`self.args.len() == 1`)", {})
+            # a positional placeholder denotes its argument by position: whether that argument also carries a name
+            # (`"{}", value = _0` is valid for format_args!) must not enter the decision
+            bx = body
+            for hc, _ in A.calls(arm["body"]):
+                hn = A.path_str(hc["func"]) or ""
+                hn = hn[6:] if hn.startswith("Self::") else hn
+                if hn and "::" not in hn:
+                    hf = [g_ for g_ in A.functions(f) if g_.name == hn and g_.block is not None]
+                    if len(hf) == 1:
+                        bx += " " + A.fn_text(hf[0])
+            if re.search(r"\.alias\b|\balias\(\)", bx):
+                ctx.report(
+                    "transparent:positional-alias",
+                    ctx.where(f, arm["pat"]),
+                    "the positional arm of `transparent_call` looks at the argument's *alias*: `#[display(\"{}\", value = _0)]` (one named argument used positionally, as format_args! allows) "
+                    "is no longer delegated to the argument, so the caller's width / precision / flags are silently dropped (`{:>5}` prints `7`)",
+                    {"arm": body[:300]},
+                )
         if "Identifier" in pr:
             g = A.render(arm["guard"][1]) if arm.get("guard") else ""
             ctx.instance("transparent_call:named-arm", sample={"pattern": pr, "guard": g})
@@ -739,7 +757,9 @@ def _syn_src(ctx, fname):
     import glob
     import os
 
-    lock = open(os.path.join(ctx.repo, "Cargo.lock")).read()
+    from ..extsrc import lock_text
+
+    lock = lock_text(ctx.repo)
     m = re.search(r'name = "syn"\nversion = "([^"]+)"', lock)
     ver = m.group(1) if m else "2.0.119"
     cands = glob.glob(os.path.expanduser(f"~/.cargo/registry/src/*/syn-{ver}/src/{fname}"))
